@@ -3,6 +3,7 @@ package props
 import (
 	stdjson "encoding/json"
 	"fmt"
+	"strings"
 
 	"github.com/gabriel-vasile/mimetype"
 
@@ -184,6 +185,27 @@ func c09Run(c *fw.Ctx, b fw.Batch) {
 				c09Judge(c, "enum", y, uint32(len(y)-1), false)
 			}
 		})
+	case "deep":
+		// malformed input behind (and around) the recursion cap: more than 4096
+		// nested openers followed by garbage must not get the benefit of the doubt
+		opens := []string{"[", `{"k":`, `[{"k":`, "[ "}
+		tails := []string{"]}", "1 2 3", ":::", "prose here", "}]", "1]]x", `"a" "b"`, ",", "]", "tru", `{"a" 1}`, "[1,,2]", "\\", "}}}}"}
+		for _, op := range opens {
+			per := strings.Count(op, "[") + strings.Count(op, "{")
+			for _, depth := range []int{100, 4000, 4094, 4096, 4097, 4098, 4100, 5000, 9000} {
+				head := gen.Nest(op, "", "", depth/per)
+				for ti, tl := range tails {
+					x := append(append([]byte{}, head...), tl...)
+					if ti%2 == 0 { // also with balanced closers after the garbage
+						x = append(x, gen.Nest("", "", "]", depth/per)...)
+					}
+					for _, l := range []uint32{0, uint32(len(x)), uint32(len(x) + 1), 1 << 20} {
+						c09Judge(c, "deep-garbage", x, l, false)
+					}
+					c.Distinct(fmt.Sprintf("deep|%s|%d|%d", op, depth, ti))
+				}
+			}
+		}
 	case "mutate":
 		r := c.Rand
 		for i := 0; i < b.N; i++ {
@@ -234,7 +256,7 @@ func init() {
 	fw.Register(&fw.Prop{
 		ID:    "C09",
 		Level: "exploration",
-		Rule: "bounded-exhaustive: ALL sequences of 1..N tokens over the 16-token alphabet [ ] { } , : \" \"a\" 1 space newline a \\ - tru null (N = 6 quick, 7 thorough), each detected whole (limit 0, and len+1) and truncated (limit = len, and len-1), through Detect and through the JSON signature check directly; plus mutated valid documents (delete/insert/swap/replace a structural byte, drop a closer, duplicate a comma, cut + garbage) for longer inputs. " +
+		Rule: "bounded-exhaustive: ALL sequences of 1..N tokens over the 16-token alphabet [ ] { } , : \" \"a\" 1 space newline a \\ - tru null (N = 6 quick, 7 thorough), each detected whole (limit 0, and len+1) and truncated (limit = len, and len-1), through Detect and through the JSON signature check directly; plus mutated valid documents (delete/insert/swap/replace a structural byte, drop a closer, duplicate a comma, cut + garbage) for longer inputs, plus garbage behind 100-9000 nested openers (around and beyond the recursion cap of 4096). " +
 			"non-trivial = the reference recogniser says the parser has something to reject in that mode (whole: not Complete; truncated: Fail); enumerated strings are distinct by construction (counted once per string and mode), mutants are counted by content hash.",
 		Assumptions: []string{
 			"the relaxed language is the one written in oracle/refjson.go from the property statement: RFC 8259 structure, numbers = runs over [-+.0-9eE] with a digit, any byte but '\"' inside strings with the standard escapes, one trailing comma before a closer",
@@ -255,6 +277,7 @@ func init() {
 				nm = 400000
 			}
 			bs = append(bs, batches("mutate", 8, nm, 1800)...)
+			bs = append(bs, batches("deep", 1, 0, 1800)...)
 			// longest batches first
 			for i, j := 0, len(bs)-1; i < j; i, j = i+1, j-1 {
 				bs[i], bs[j] = bs[j], bs[i]
